@@ -2,6 +2,8 @@
 #![warn(missing_docs)]
 #![cfg_attr(docsrs, feature(doc_cfg))]
 #![allow(deprecated)]
+// `--cfg arc_swap_verif` (set only by the verification harness in /verif) is not a declared cfg.
+#![allow(unknown_lints, unexpected_cfgs)]
 #![cfg_attr(feature = "experimental-thread-local", no_std)]
 #![cfg_attr(feature = "experimental-thread-local", feature(thread_local))]
 
@@ -147,7 +149,12 @@ use core::marker::PhantomData;
 use core::mem;
 use core::ops::Deref;
 use core::ptr;
+#[cfg(not(arc_swap_verif))]
 use core::sync::atomic::{AtomicPtr, Ordering};
+#[cfg(arc_swap_verif)]
+use arc_swap_verif_rt::atomic::AtomicPtr;
+#[cfg(arc_swap_verif)]
+use core::sync::atomic::Ordering;
 
 use alloc::sync::Arc;
 
